@@ -98,6 +98,7 @@ func newNodeCmp() *testnode.Chain33Mock {
 	mc.BlockChain.Driver, mc.Store.Driver, mc.Wallet.Driver = "memdb", "memdb", "memdb"
 	mc.Consensus.Name = "solocmp"
 	mc.Consensus.EnableBestBlockCmp = true
+	cfg.GetModuleConfig().Consensus.Minerstart = false // see stopMiner
 	m := testnode.NewWithConfig(cfg, nil)
 	quiet()
 	stopMiner(m)
@@ -108,6 +109,7 @@ func newNodeCmp() *testnode.Chain33Mock {
 		}
 		time.Sleep(2 * time.Millisecond)
 	}
+	waitWalletRescan()
 	return m
 }
 
